@@ -295,6 +295,7 @@ func initLibExternals() {
 	for _, pkg := range []string{"github.com/golang/protobuf/proto", "github.com/gogo/protobuf/proto"} {
 		externals[pkg+".Marshal"] = extProtoMarshal
 		externals[pkg+".Unmarshal"] = extProtoUnmarshal
+		externals[pkg+".Size"] = extProtoSize
 	}
 	for k, v := range map[string]externalFn{
 		"github.com/zond/gotomic.NewHash": func(fr *frame, a []value) value {
